@@ -1,34 +1,48 @@
 /-
   C13 — obligations about the REGENERATED facts (Generated/C13.lean is rewritten from the Go source on every run).
-  They pin the syntactic facts the model's shape relies on and that a behavioural run cannot cheaply reveal.
+
+  Every fact is an `Option`. `none` = the extractor could not locate the anchor in a shape it understands (helper
+  extracted, statements restructured): the obligation is vacuous, bin/check prints `T-TIE-UNAVAILABLE`, and the
+  correspondence ops (gate / attr / refresh / refreshseq / refresh2 / conn) carry the clause alone. A located fact must
+  satisfy its obligation. The facts are relations between statements found by SHAPE (exported API names, statement forms,
+  identifiers related to each other), not the text of expressions: renaming locals / receivers, rewording logs and errors,
+  `== ""` vs `len(..) == 0`, an intermediate variable for the last event … leave them unchanged.
 -/
 import SygmaModel.Model.C13
 import SygmaModel.Generated.C13
 namespace Sygma.C13
-open Sygma.Generated
 
 /-- `From` is never populated by `encoding/json` (the model's `Wire` has no sender field) -/
-theorem gen_from_tag : C13.fromTag = "json:\"-\"" := by decide
+theorem gen_from_tag : ∀ s, Generated.C13.fromTag = some s → s = "-" := by
+  intro s hs; unfold Generated.C13.fromTag at hs; cases hs; all_goals decide
 
-/-- the remote peer is the connection's; `From` is overwritten with it after unmarshalling and before the subscribers of
-    the message are looked up (`attributeMsg` = decode, then set sender) -/
-theorem gen_process_steps :
-    C13.processSteps = ["remote:s.Conn().RemotePeer()", "unmarshal", "from:remotePeerID", "subscribers"] := by decide
+/-- `From` is overwritten with the connection's `RemotePeer()` after unmarshalling and before the subscribers of the
+    message are looked up (`attributeMsg` = decode, then set sender) -/
+theorem gen_process_steps : ∀ s, Generated.C13.processSteps = some s → s = ["unmarshal", "from:=remote", "subscribers"] := by
+  intro s hs; unfold Generated.C13.processSteps at hs; cases hs; all_goals decide
 
-/-- the hooks: the two that see the peer ask the topology, the other three admit (`gate`) -/
-theorem gen_gater :
-    C13.gaterReturns = ["InterceptPeerDial: cg.topology.IsAllowedPeer(p)", "InterceptSecured: cg.topology.IsAllowedPeer(p)",
-      "InterceptAddrDial: true", "InterceptAccept: true", "InterceptUpgraded: true, 0"] ∧
-    C13.isAllowedPeer = "{ for _, p := range nt.Peers { if p.ID == peer { return true } } return false }" := by decide
+/-- how the model's `gate` decides for the hook with that Go name: by membership of the peer, or always true -/
+def hookKind (name : String) : Option String :=
+  let h? : Option Hook := match name with
+    | "InterceptPeerDial" => some .peerDial | "InterceptSecured" => some .securedIn
+    | "InterceptAddrDial" => some .addrDial | "InterceptAccept" => some .accept | "InterceptUpgraded" => some .upgraded
+    | _ => none
+  h?.map fun h => if gate ⟨[], 1⟩ h 0 then "true" else "member"   -- the empty topology separates the two kinds
 
-/-- `NetworkTopology`: the hash is compared BEFORE anything is decrypted or parsed (`provider`) -/
-theorem gen_provider_steps :
-    C13.providerSteps = ["fetch", "read", "trim", "hexdecode", "sha256", "hexencode", "compare", "decrypt", "unmarshal", "process"] := by
-  decide
+/-- each hook decides as the model's `gate` does (and `InterceptSecured` does so for both directions in the model) -/
+theorem gen_gater : ∀ g, Generated.C13.gater = some g →
+    g.length = 5 ∧ (∀ x ∈ g, hookKind x.1 = some x.2) ∧
+    gate ⟨[], 1⟩ .securedOut 0 = gate ⟨[], 1⟩ .securedIn 0 := by
+  intro g hg; unfold Generated.C13.gater at hg; cases hg; all_goals decide
 
-/-- `HandleEvents`: last event's hash, empty hash refused, provider → store → gate → peerstore (`refresh`) -/
-theorem gen_refresh_steps :
-    C13.refreshSteps = ["events", "hash:refreshEvents[len(refreshEvents)-1].Hash", "empty-check", "provider", "store", "gate",
-      "peers", "resharing"] := by decide
+/-- `NetworkTopology`: the ciphertext is compared with the announced hash BEFORE anything is decrypted or parsed -/
+theorem gen_provider_steps : ∀ s, Generated.C13.providerSteps = some s →
+    s = ["hexdecode", "compare", "decrypt", "unmarshal"] := by
+  intro s hs; unfold Generated.C13.providerSteps at hs; cases hs; all_goals decide
+
+/-- `HandleEvents`: the LAST event's hash, empty hash refused, provider → store → gate → peerstore (`refresh`, `writesOf`) -/
+theorem gen_refresh_steps : ∀ s, Generated.C13.refreshSteps = some s →
+    s = ("last", ["events", "empty-check", "provider", "store", "gate", "peers"]) := by
+  intro s hs; unfold Generated.C13.refreshSteps at hs; cases hs; all_goals decide
 
 end Sygma.C13
